@@ -201,7 +201,7 @@ def run(ctx, rep):
         rep.traces += 1
         rep.hist("kind", kind)
         gi = 0
-        for r in rec:
+        for ri, r in enumerate(rec):
             gi += 1
             where = dict(cfg=cfg, site=r["site"], index=gi)
             rep.count(kind + ":" + r["site"], (seed, gi))
@@ -258,6 +258,14 @@ def run(ctx, rep):
                         any(pa_[i] != float(pre["a"][i]) or pb_[i] != float(pre["b"][i]) for i in range(H) if i != nk):
                     rep.problem("memory", f"{kind}: the memory was not advanced by one cell holding the stated mean of the strictly improving trials (or a copy)",
                                 dict(where, k=pre["k"], expected=[ea, eb], got=[pa_[nk], pb_[nk]], post_k=post["k"]), "memory-rule", True, [pa_, pb_], [ea, eb], "C15_memory_invariant")
+                if kind == "SHADE":
+                    # what was handed to the archive in this generation must be exactly the parents of STRICTLY better trials
+                    arch = next((x for x in reversed(rec[:ri]) if x["site"] == "archive"), None)
+                    exp_worse = np.asarray(pre["pop"])[np.array(succ, dtype=bool)] if any(succ) else np.zeros((0, np.asarray(pre["pop"]).shape[1]))
+                    if arch is not None and not (np.asarray(arch["worse"]).shape == exp_worse.shape and np.array_equal(np.asarray(arch["worse"]), exp_worse)):
+                        rep.problem("archive", "SHADE archive received individuals that were not replaced by strictly better trials (or missed some)",
+                                    dict(where, parents_fit=par, trial_fit=trial, archived=np.asarray(arch["worse"]).tolist()), "archive-not-strict", True,
+                                    np.asarray(arch["worse"]).tolist(), exp_worse.tolist(), "C15_archive_strictly_better")
                 term = (f"({mem_term(pre['a'], pre['b'], pre['k'])}, {ql(par)}, {ql(trial)}, {ql(pa)}, {ql(pb)}, {mem_term(post['a'], post['b'], post['k'])})")
                 case = dict(where, pre=[pre["a"].tolist(), pre["b"].tolist(), pre["k"]], par=par, trial=trial, first=pa, second=pb, post=[pa_, pb_, post["k"]])
                 (fm_sh if kind == "SHADE" else fm_sg).add(term, case)
